@@ -354,10 +354,21 @@ def gen_stream_case(rng, tier):
             break
     c = coarsen(c, rng.choice(gen_cli.TIE_LEVELS))
     c["kind"] = "cli_stream"
+    c["hashseed"] = rng.choice(["0", "1", "2", "3", "4", "5", "6", "7", str(rng.randint(8, 4000000))])
     return c
 
 
 def run_stream(case):
+    """the recorded in-process run of main(argv), made in a FRESH process under the case's PYTHONHASHSEED (so that what a
+    case shows does not depend on the hash seed the harness happens to run under, and a replay sees the same process)"""
+    p = subprocess.run([lib.PY, str(VERIF / "harness" / "c07_fresh.py"), "stream"], input=json.dumps(case), capture_output=True, text=True,
+                       env=lib.impl_env({"PYTHONHASHSEED": str(case.get("hashseed", "0"))}), timeout=900)
+    if p.returncode != 0:
+        raise OSError("recorded command-line run failed to start or crashed: " + p.stderr[-600:])
+    return json.loads(p.stdout.strip().splitlines()[-1])
+
+
+def run_stream_here(case):
     import numpy as np
 
     stream = []
@@ -399,6 +410,35 @@ def run_stream(case):
     return out
 
 
+def shrink_stream(case):
+    ms = case["methods"]
+    if len(ms) > 2:
+        for i in range(len(ms)):
+            yield dict(case, methods=ms[:i] + ms[i + 1:])
+    sm = cli_model.shipped()
+    read = {cli_model.input_of(sm[n]) for n in ms if n in sm}
+    if any(k not in read for k in case["evidence"]):
+        yield dict(case, evidence={k: v for k, v in case["evidence"].items() if k in read})
+    names = case.get("names") or {}
+    for inp, files in case["evidence"].items():
+        nm = names.get(inp)
+        if len(files) > 1 and len(case["psets"]) == 1:
+            for i in range(len(files)):
+                c = dict(case, evidence=dict(case["evidence"], **{inp: files[:i] + files[i + 1:]}))
+                if nm:
+                    c["names"] = dict(names, **{inp: nm[:i] + nm[i + 1:]})
+                yield c
+        for i, rows in enumerate(files):
+            if nm and nm[i] in nm[:i]:
+                continue
+            n = len(rows)
+            for size in sorted({n // 2, n // 4} - {0}, reverse=True):
+                for a in range(0, n, size):
+                    yield dict(case, evidence=dict(case["evidence"], **{inp: files[:i] + [rows[:a] + rows[a + size:]] + files[i + 1:]}))
+    if case["keepAll"]:
+        yield dict(case, keepAll=False)
+
+
 def stream_written(impl_out):
     """the files the real run left behind: per file the last table a method wrote there"""
     last = {}
@@ -435,12 +475,17 @@ class P(Prop):
     rule = (
         "call sequences of 2-5 inputs (structured peptide lists of harness/gen_pil.py, repeated inputs included) on one "
         "reused MethodConfig for a randomly chosen shipped method; non-trivial = at least two calls returned rows and the "
-        "inputs differ or a rescue method is used; distinct by sha1 of the case"
+        "inputs differ or a rescue method is used; 35 % of the sequences draw tie-rich lists (tied_pil); 12 % of the cases are whole "
+        "command lines with two or more methods and tie-rich evidence run by the real main(argv) in a fresh process under a drawn "
+        "PYTHONHASHSEED with the permutations recorded at process level (kind cli_stream, model op cli_stream); distinct by sha1 of the case"
     )
     assumptions = [
         "hash-seed independence is decided by running the real CLI under several PYTHONHASHSEED values (exploration), not by a theorem: CPython's set order and networkx internals are exercised, not modelled",
     ]
-    trusted_extra = ["fresh-process reference harness/c07_fresh.py"]
+    trusted_extra = ["fresh-process reference harness/c07_fresh.py (single call; recorded main(argv) run of the cli_stream cases)",
+                     "process-level recorder of numpy.random.shuffle (index list shuffled by the real generator, then applied)",
+                     "harness/cli_model.py (generator, recorders, rendering and views of whole command lines)"]
+    _stream_shrinks = 0
 
     def gen_case(self, rng, tier):
         if rng.random() < STREAM_SHARE:
@@ -621,7 +666,14 @@ class P(Prop):
 
     def shrink(self, case):
         if case.get("kind") == "cli_stream":
-            yield from cli_model.shrink(case)
+            # coarse and bounded (every candidate costs a whole command-line run, a recomputation and a model run):
+            # fewer methods (never fewer than two: one method has no position in the stream to lose), unread inputs,
+            # whole files, then halves / quarters of a file's rows; at most 40 candidates per process
+            for c in shrink_stream(case):
+                if P._stream_shrinks >= 40:
+                    return
+                P._stream_shrinks += 1
+                yield cli_model.sync_mentions(c)
             return
         if case.get("kind") == "cli-hashseed":
             return
